@@ -182,6 +182,15 @@ class Ctx:
             self.coverage["print_assumptions"] = {"closed_theorems": closed, "axioms": axioms}
             self.coverage["discharged"] = len(obligations)
             self.coverage["build_s"] = round(time.time() - t, 1)
+            if self.thorough:
+                # independent re-check of the compiled property file and everything it depends on
+                lib = "Mammoth.Props." + os.path.basename(prop_file)[:-2]
+                rc, out = sh(["coqchk", "-silent", "-o", "-Q", ".", "Mammoth", lib], cwd=COQ, timeout=2400)
+                tail = out[out.find("CONTEXT SUMMARY"):] if "CONTEXT SUMMARY" in out else out[-1500:]
+                self.coverage["coqchk"] = {"exit": rc, "summary": tail[:1500]}
+                if rc != 0:
+                    self.violations.append(Violation("proof", "coqchk rejects %s" % lib, {"obligation": lib, "error": out[-3000:]}, False))
+                    return False
             self.log("built %s: %d obligations in %d files, %d closed under the global context, axioms=%s" %
                      (target, len(obligations), len(cone), closed, axioms))
             return True
